@@ -82,6 +82,29 @@ def gen_string(rng, cls):
     raise ValueError(cls)
 
 
+IDENTS = ["alpha", "beta", "gamma", "delta", "omega", "foo", "bar", "baz", "x", "value", "compat", "test_a", "suite_b", "a", "b"]
+
+
+def gen_node_name(rng, cls, ascii_only=False):
+    w, w2 = rng.choice(IDENTS), rng.choice(IDENTS)
+    if cls == "ident":
+        return w + rng.choice(["", "", "_", "_1", "2", "_" + w2])
+    if cls == "dotted":
+        cands = [w + "." + w2, w + "." + w2, w + "_1.2", "compat_1.2", w + "." + w2 + "." + rng.choice(IDENTS), ".", "..", w + ".",
+                 "." + w, w + ".." + w2, "1.2", "v1.2.3", w + " 1.0", w + ".0", "a.b", "a.b.c", w + "-" + w2 + ".x"]
+        if not ascii_only:
+            cands += ["\u00e9.\u00fc", w + ".\u65e5\u672c", "\U0001F600." + w]
+        return rng.choice(cands)
+    if cls == "dash":
+        return rng.choice([w + "-" + w2, w + "-1", "-", "--" + w, w + "-", "a-b-c"])
+    if cls == "digits":
+        return rng.choice(["1", "42", "007", "0", "3" + w, w + "3", "1_000"])
+    if cls == "punct":
+        return rng.choice([w + ":" + w2, w + "/" + w2, w + "[1]", w + "#1", w + " " + w2, "(" + w + ")", w + "," + w2, w + "=" + w2, "*", "?",
+                           w + "[" + w2 + "=1.5]", "~" + w, w + "@" + w2, "a+b", "50%"])
+    raise ValueError(cls)
+
+
 class Text:
     """Draws strings: `mode` plain → ASCII words only (but unique-ish), safe → XML-preserved classes, wild → everything."""
 
@@ -105,8 +128,31 @@ class Text:
             self.used.add(cls)
         return gen_string(rng, cls)
 
+    def node_name(self, taken):
+        """the name of a test or of a suite, unique among its siblings.  The real constraint (suite/loader.py
+        `check_type_string`) is "any str": `@lcc.test(name=…)`, `@lcc.suite(name=…)` and the naming scheme of
+        parametrized tests take arbitrary text, so besides identifiers the class holds dotted names
+        (`compat_1.2`: the dot is also the separator of the string form of a path), dashes, digits, punctuation
+        and whatever `s()` yields in this mode (blank, empty, non-ASCII, …)."""
+        rng = self.rng
+        for _ in range(50):
+            r = rng.random()
+            if r < 0.30:
+                cls = "ident"
+            elif r < 0.62:
+                cls = "dotted"
+            elif r < 0.80:
+                cls = rng.choice(["dash", "digits", "punct"])
+            else:
+                cls = "text"
+            n = self.s(0.3) if cls == "text" else gen_node_name(rng, cls, ascii_only=self.mode == "plain")
+            if n not in taken:
+                taken.add(n)
+                return n
+        return self.name(taken)
+
     def name(self, taken):
-        """a node name, unique among its siblings"""
+        """a key (property, info), unique among its siblings"""
         for _ in range(50):
             n = self.s(0.7)
             if n not in taken:
@@ -261,9 +307,10 @@ def gen_suite(rng, tx, clk, name, rank, depth, opts, finished=True):
         if after:
             break
         unfin = unfinished_item == "test" and i == n_tests - 1
-        tests.append(gen_test(rng, tx, clk, tx.name(taken), tranks[i], opts, finished=not unfin))
+        tests.append(gen_test(rng, tx, clk, tx.node_name(taken), tranks[i], opts, finished=not unfin))
     if unfinished_item == "test" and n_tests > 0:
         after = True
+    tests = reorder_siblings(rng, tests, opts, keep_last=unfinished_item == "test")
     suites = []
     sranks = gen_ranks(rng, n_sub, opts)
     staken = set()
@@ -271,9 +318,10 @@ def gen_suite(rng, tx, clk, name, rank, depth, opts, finished=True):
         if after:
             break
         unfin = unfinished_item == "sub" and i == n_sub - 1
-        suites.append(gen_suite(rng, tx, clk, tx.name(staken), sranks[i], depth + 1, opts, finished=not unfin))
+        suites.append(gen_suite(rng, tx, clk, tx.node_name(staken), sranks[i], depth + 1, opts, finished=not unfin))
     if unfinished_item == "sub" and n_sub > 0:
         after = True
+    suites = reorder_siblings(rng, suites, opts, keep_last=unfinished_item == "sub")
     teardown = None
     if not after and (rng.random() < 0.4 or unfinished_item == "teardown"):
         teardown = gen_phase(rng, tx, clk, opts, finished=unfinished_item != "teardown")
@@ -301,9 +349,10 @@ def gen_report(rng, mode="wild", **opts):
         if after:
             break
         unfin = unfinished_item == "suite" and i == n - 1
-        suites.append(gen_suite(rng, tx, clk, tx.name(taken), ranks[i], 1, opts, finished=not unfin))
+        suites.append(gen_suite(rng, tx, clk, tx.node_name(taken), ranks[i], 1, opts, finished=not unfin))
     if unfinished_item == "suite":
         after = True
+    suites = reorder_siblings(rng, suites, opts, keep_last=unfinished_item == "suite")
     teardown = None
     if not after and (rng.random() < 0.35 or unfinished_item == "teardown"):
         teardown = gen_phase(rng, tx, clk, opts, finished=unfinished_item != "teardown")
@@ -314,10 +363,160 @@ def gen_report(rng, mode="wild", **opts):
         "nb_threads": rng.choice([1, 1, 2, 4]), "start": start, "end": end, "saving": None,
         "setup": setup, "teardown": teardown, "suites": suites,
     }
+    if opts.get("sibling_order", True):
+        tie_siblings(rng, rep)
+    if opts.get("alias_names", True):
+        alias_names(rng, rep)
     if opts.get("odd"):
         _oddify(rng, rep, opts)
     rep["_classes"] = sorted(tx.used)
     return rep
+
+
+def reorder_siblings(rng, items, opts, keep_last=False):
+    """Siblings are generated in the order of their start times (one clock); the order in which a report HOLDS
+    them need not be that one: a report loaded from a file holds them in declaration (rank) order whatever the
+    execution order was (`depends_on` a later test, several worker threads).  Half of the sibling lists keep the
+    chronological order, the others are reversed / rotated / shuffled (the unfinished item of an unfinished
+    suite stays last, so that "a sequential run that stopped" stays frequent)."""
+    if not opts.get("sibling_order", True) or len(items) < 2:
+        return items
+    mode = rng.choice(["chrono", "chrono", "chrono", "reverse", "rotate", "shuffle", "shuffle"])
+    if mode == "chrono":
+        return items
+    head, last = (items[:-1], items[-1:]) if keep_last else (items, [])
+    if mode == "reverse":
+        head = head[::-1]
+    elif mode == "rotate":
+        head = head[1:] + head[:1]
+    else:
+        head = list(head)
+        rng.shuffle(head)
+    return head + last
+
+
+def _sibling_lists(rep):
+    yield rep["suites"]
+    for s in iter_suites(rep["suites"]):
+        yield s["tests"]
+        yield s["suites"]
+
+
+def _start_holder(x):
+    return x["res"] if "res" in x else x
+
+
+def tie_siblings(rng, rep):
+    """some sibling lists start at the same instant (ms resolution of the file formats, parallel workers)"""
+    for lst in _sibling_lists(rep):
+        if len(lst) >= 2 and rng.random() < 0.12:
+            starts = [_start_holder(x)["start"] for x in lst]
+            if any(t is None for t in starts):
+                continue
+            t0 = min(starts)
+            for x in lst[:rng.choice([2, len(lst)])]:
+                h = _start_holder(x)
+                if "res" in x and h["status"] in ("skipped", "disabled"):
+                    h["end"] = t0
+                h["start"] = t0
+
+
+def alias_names(rng, rep):
+    """names whose dot-split form spells the path of ANOTHER node of the report: a suite renamed `<sibling>.<child of
+    that sibling>`, a test renamed `<sub-suite of its suite>.<test of that sub-suite>`.  Legitimate names; a reader
+    that goes through the string form of a path resolves them to the wrong node."""
+    def rename(node, siblings, new):
+        if new not in {x["md"]["name"] for x in siblings}:
+            node["md"]["name"] = new
+            rep["_aliased"] = rep.get("_aliased", 0) + 1
+
+    def child_name(a):
+        kids = [x["md"]["name"] for x in a["suites"]] + [t["md"]["name"] for t in a["tests"]]
+        return rng.choice(kids) if kids else rng.choice(IDENTS)
+    lists = [rep["suites"]] + [s["suites"] for s in iter_suites(rep["suites"])]
+    for lst in lists:
+        if len(lst) >= 2 and rng.random() < 0.3:
+            a, x = rng.sample(lst, 2)
+            rename(x, lst, a["md"]["name"] + "." + child_name(a))
+    for s in iter_suites(rep["suites"]):
+        if s["tests"] and s["suites"] and rng.random() < 0.25:
+            u = rng.choice(s["suites"])
+            rename(rng.choice(s["tests"]), s["tests"], u["md"]["name"] + "." + child_name(u))
+
+
+def path_str_resolves_elsewhere(rep):
+    """number of nodes whose dotted path string, split on '.', names a DIFFERENT existing node (see alias_names)"""
+    suites_by_path, tests_by_path = {}, {}
+
+    def walk(ss, pre):
+        for s in ss:
+            p = pre + (s["md"]["name"],)
+            suites_by_path.setdefault(p, s)
+            for t in s["tests"]:
+                tests_by_path.setdefault(p + (t["md"]["name"],), t)
+            walk(s["suites"], p)
+    walk(rep["suites"], ())
+    n = 0
+    for table in (suites_by_path, tests_by_path):
+        for p, node in table.items():
+            q = tuple(".".join(p).split("."))
+            if q != p and q in table and table[q] is not node:
+                n += 1
+    return n
+
+
+def shape_features(rep):
+    """input-class labels of a report description, for `Stream.features` (names and sibling order)"""
+    f = set()
+    for s, path in _suites_with_paths(rep["suites"], ()):
+        nm = s["md"]["name"]
+        if "." in nm:
+            f.add("name:dotted-suite")
+        for key in ("setup", "teardown"):
+            if s[key] and s[key]["steps"] and any("." in x for x in path):
+                f.add("name:dotted-on-step-path")
+        for t in s["tests"]:
+            tn = t["md"]["name"]
+            if "." in tn:
+                f.add("name:dotted-test")
+            if t["res"]["steps"] and ("." in tn or any("." in x for x in path)):
+                f.add("name:dotted-on-step-path")
+            for label, pred in _NAME_LABELS:
+                if pred(tn):
+                    f.add("name:" + label)
+        for label, pred in _NAME_LABELS:
+            if pred(nm):
+                f.add("name:" + label)
+    if path_str_resolves_elsewhere(rep):
+        f.add("name:path-string-spells-another-node")
+    for lst in _sibling_lists(rep):
+        kind = "tests" if lst and "res" in lst[0] else "suites"
+        acc = sorted(lst, key=lambda x: x["md"]["rank"])      # accessor order (stable)
+        starts = [_start_holder(x)["start"] for x in acc]
+        if any(t is None for t in starts):
+            continue
+        if any(a > b for a, b in zip(starts, starts[1:])):
+            f.add("siblings-out-of-start-order")
+            f.add("siblings-out-of-start-order:" + kind)
+        if any(a == b for a, b in zip(starts, starts[1:])):
+            f.add("siblings-equal-start")
+    return sorted(f)
+
+
+_NAME_LABELS = [
+    ("dash", lambda n: "-" in n),
+    ("digits-only", lambda n: n.isdigit()),
+    ("non-ascii", lambda n: any(ord(c) > 0x7F for c in n)),
+    ("blank-or-empty", lambda n: n.strip() == ""),
+    ("punctuation", lambda n: any(c in n for c in ":/[]#(),=*?~@+%")),
+]
+
+
+def _suites_with_paths(ss, pre):
+    for s in ss:
+        p = pre + (s["md"]["name"],)
+        yield s, p
+        yield from _suites_with_paths(s["suites"], p)
 
 
 def _oddify(rng, rep, opts):
@@ -919,9 +1118,17 @@ def shrink_desc(d):
                 c = copy.deepcopy(d)
                 del _get(c, path)[i]
                 yield c
-    for key in ("setup", "teardown"):
-        for kind, path in items:
-            pass
+    # a suite replaced by one of its sub-suites (one nesting level less)
+    for kind, path in items:
+        if kind == "list" and path and path[-1] == "suites":
+            lst = _get(d, path)
+            for i, s in enumerate(lst):
+                taken = {x["md"]["name"] for k, x in enumerate(lst) if k != i}
+                for sub in s.get("suites", []):
+                    if sub["md"]["name"] not in taken:
+                        c = copy.deepcopy(d)
+                        _get(c, path)[i] = copy.deepcopy(sub)
+                        yield c
     # optional results
     def opt(x, pre=()):
         if isinstance(x, dict):
@@ -939,8 +1146,18 @@ def shrink_desc(d):
     for kind, path in items:
         if kind == "str" and path[-1] not in _ENUM_KEYS:
             s = _get(d, path)
+            if path[-1] == "name" and len(path) >= 4 and path[-2] == "md" and path[-4] in ("tests", "suites"):
+                # node names: towards a short one of the same kind (dotted stays dotted), unique among the siblings
+                sibs = {x["md"]["name"] for k, x in enumerate(_get(d, path[:-3])) if k != path[-3]}
+                for cand in (["a.b", "c.d", "e.f"] if "." in s else ["a", "b", "c"]):
+                    if len(cand) < len(s) and cand not in sibs:
+                        c = copy.deepcopy(d)
+                        _set(c, path, cand)
+                        yield c
+                        break
+                continue
             if path[-1] == "name" or (len(path) >= 2 and path[-2] in ("props", "info") and path[-1] == 0):
-                continue        # keep names / keys (sibling uniqueness)
+                continue        # keep keys (uniqueness)
             if len(s) > 1:
                 for cand in {s[: len(s) // 2], s[len(s) // 2:], s[0], s[-1]}:
                     if cand != s:
